@@ -109,7 +109,12 @@ impl Prop for C11 {
         for k in 0..8 {
             // small programs: the widest line is then often the interesting one
             let size = *rng.pick(&[1usize, 2, 3, 3, 6, 6, 25]);
-            let w = common::well_formed(ctx, &mut rng, size);
+            let mut w = common::well_formed(ctx, &mut rng, size);
+            if rng.chance(1, 8) {
+                // multi-line literals with wrappable text after the closing quotes, also as bodies of
+                // control statements and inside anonymous routines
+                w = common::WellFormed { text: common::mls_carrier(&mut rng), name: "mls-carrier".into(), prog: None, layout: None, seed_width: None };
+            }
             let mut base = Cfg::sample_sane(&mut rng);
             let w2 = if rng.chance(1, 5) { 120 } else { rng.range(12, 200) as u32 };
             base.wrap_column = w2;
@@ -150,6 +155,8 @@ impl Prop for C11 {
                         // (equally fitting) choice; rare on the unchanged tree, judged by its rate
                         let class = if fallback {
                             "wrap-fallback"
+                        } else if super::wf::comment_after_conditional_directive(&w.text) {
+                            "comment-after-conditional-directive"
                         } else if reflow_cache && w.text.contains("'''") {
                             "reflow-child-cache"
                         } else if max1 <= w1 && oracle::line_count(&f1) == oracle::line_count(&f2) {
